@@ -235,6 +235,9 @@ RECURSIVE AccelObs(_, _)
 AccelObs(log, k) ==    \* what each accelerator operation observed, in program order
   IF k > Len(log) THEN <<>>
   ELSE (IF IsAccelEvent(log[k]) THEN << <<log[k].s[1], log[k].rt>> >> ELSE <<>>) \o AccelObs(log, k + 1)
+(* what the buffers a function returns hold when it returns *)
+RetConts(r) == LET rs == {k \in DOMAIN r.log : r.log[k].k = "ret"} IN
+               IF rs = {} THEN <<>> ELSE LET e == r.log[CHOOSE k \in rs : TRUE] IN [j \in DOMAIN e.vals |-> ContOf2(r.cont, e.vals[j])]
 Casts(c, orc, a, b) ==
   IF b.fault # "none" THEN "B.fault:" \o b.fault
   ELSE IF AccelObs(a.log, 1) # AccelObs(b.log, 1) THEN "ConsumersReadOriginalData"
@@ -242,6 +245,7 @@ Casts(c, orc, a, b) ==
   ELSE IF \E x \in DOMAIN b.cont : IsArgCell(b.uf, x) /\ ContOf2(a.cont, x) # b.cont[x] THEN "WritersCopiedBack"
   ELSE IF c.needl1 = 1 /\ \E k \in DOMAIN b.log : IsAccelEvent(b.log[k]) /\ \E j \in DOMAIN b.log[k].ams : b.log[k].ams[j] # "L1"
        THEN "AcceleratorOperandsInL1"
+  ELSE IF RetConts(a) # RetConts(b) THEN "ReturnedBuffersHoldSameData"
   ELSE "ok"
 
 (* ---- C10: the IR the compiler generates from a layout (bounds, steps, subview pointers) means the same as the layout ---- *)
